@@ -1,4 +1,5 @@
 import Sismic.Proofs.Import
+import Sismic.Proofs.ImportErr
 /-!
 # Property C12 — YAML import accepts only structurally sound statecharts
 
@@ -7,11 +8,10 @@ validation (`schemaValidate`, the semantics of the `schema` library on the shape
 `import_from_dict` (`importDict`: work list, `add_state`, `add_transition`) and `validate()`.
 
 Proved: whatever is accepted is `Sound` (every rule listed in the property), nothing of the
-document is dropped on the way, the named faults are rejected with `StatechartError`.
-*Partial*: "never another exception type" is proved for schema rejections and for everything
-`import_from_dict` catches itself; that the schema makes the *uncaught* accesses of
-`import_from_dict` safe (`importYamlData … ≠ .error .other`) is checked by the tie on every
-generated faulty document but is not yet a theorem.
+document is dropped on the way, the named faults are rejected with `StatechartError`, and
+**no document at all** makes the import raise anything but `StatechartError`
+(`never_another_exception`: the schema makes every uncaught access of `import_from_dict` safe,
+and the work list terminates).
 -/
 namespace Sismic.C12
 
@@ -51,6 +51,18 @@ theorem memory_is_other_sibling (c : Chart) (h : Sound c) (s : StateDef) (hs : s
   | some p =>
     rw [hp] at h3
     exact ⟨p, rfl, h.tree.children p m (by simpa using h3)⟩
+
+/-- **Never another exception type.**  For every loaded document `d` — valid, faulty in any
+    combination of ways, or arbitrary — the outcome is a statechart or `StatechartError`. -/
+theorem never_another_exception (fuel : Nat) (d : Data) :
+    (∃ c, importYamlData fuel d = .ok c) ∨ importYamlData fuel d = .error .statechart := by
+  have h := importYamlData_not_other fuel d
+  cases hr : importYamlData fuel d with
+  | ok c => exact Or.inl ⟨c, rfl⟩
+  | error e =>
+    cases e with
+    | statechart => exact Or.inr rfl
+    | other => exact absurd hr h
 
 /-- **A schema violation is a `StatechartError`** (unknown keys, wrong types, unknown `type` or
     `priority`, missing `name`/`root state`: whatever `schemaValidate` rejects). -/
@@ -109,14 +121,9 @@ theorem state_errors_are_statechart_errors (f : Nat) (d : Data) (par : Option Na
     (h : importState d = .error e) :
     importLoop (f + 1) (todo ++ [(d, par)]) sts ts = .error .statechart := by
   unfold importLoop
-  cases hl : todo ++ [(d, par)] with
-  | nil => simp at hl
-  | cons x xs =>
-    simp only
-    have : (x :: xs).getLast? = some (d, par) := by rw [← hl]; simp
-    rw [this]
-    simp only [h]
-    cases e <;> rfl
+  have : (todo ++ [(d, par)]).getLast? = some (d, par) := by simp
+  rw [this]
+  simp only [h]
 
 /-- **Nothing is dropped**: an accepted chart contains exactly the states and transitions the
     work list collected, in that order (so a rule broken anywhere in the document is seen by
@@ -137,10 +144,7 @@ theorem all_registered (c0 c : Chart) (sts : List (StateDef × Option Name)) (ts
   · simp only [Except.ok.injEq] at h
     subst h
     have s1 : ∀ (l : List (StateDef × Option Name)) (a b : Chart),
-        l.foldl (fun (acc : Except IOErr Chart) p =>
-          acc.bind (fun c => match c.addState p.1 p.2 with
-            | (.ok _, c') => .ok c'
-            | (.error _, _) => .error .statechart)) (.ok a) = .ok b →
+        l.foldl (fun (acc : Except IOErr Chart) p => acc.bind (fun c => addStateStep c p)) (.ok a) = .ok b →
         b.states = a.states ++ l.map (·.1) ∧ b.transitions = a.transitions := by
       intro l
       induction l with
@@ -148,12 +152,9 @@ theorem all_registered (c0 c : Chart) (sts : List (StateDef × Option Name)) (ts
       | cons p ps ih =>
         intro a b hab
         simp only [List.foldl_cons] at hab
-        have e0 : ((Except.ok a : Except IOErr Chart).bind fun c => match c.addState p.1 p.2 with
-            | (.ok _, c') => .ok c'
-            | (.error _, _) => .error .statechart) = (match a.addState p.1 p.2 with
-            | (.ok _, c') => .ok c'
-            | (.error _, _) => .error .statechart) := rfl
+        have e0 : ((Except.ok a : Except IOErr Chart).bind fun c => addStateStep c p) = addStateStep a p := rfl
         rw [e0] at hab
+        unfold addStateStep at hab
         split at hab
         · next u c' heq =>
           have hok : (a.addState p.1 p.2).1 = .ok () := by rw [heq]
@@ -165,10 +166,7 @@ theorem all_registered (c0 c : Chart) (sts : List (StateDef × Option Name)) (ts
           simp
         · rw [foldl_bind_error] at hab; exact absurd hab (by simp)
     have s2 : ∀ (l : List Trans) (a b : Chart),
-        l.foldl (fun (acc : Except IOErr Chart) t =>
-          acc.bind (fun c => match c.addTransition { t with id := c.transitions.length } with
-            | (.ok _, c') => .ok c'
-            | (.error _, _) => .error .statechart)) (.ok a) = .ok b →
+        l.foldl (fun (acc : Except IOErr Chart) t => acc.bind (fun c => addTransStep c t)) (.ok a) = .ok b →
         b.states = a.states ∧
         b.transitions.map (fun t => { t with id := 0 }) = (a.transitions ++ l).map (fun t => { t with id := 0 }) := by
       intro l
@@ -177,14 +175,9 @@ theorem all_registered (c0 c : Chart) (sts : List (StateDef × Option Name)) (ts
       | cons t ts ih =>
         intro a b hab
         simp only [List.foldl_cons] at hab
-        have e0 : ((Except.ok a : Except IOErr Chart).bind fun c =>
-            match c.addTransition { t with id := c.transitions.length } with
-            | (.ok _, c') => .ok c'
-            | (.error _, _) => .error .statechart) =
-            (match a.addTransition { t with id := a.transitions.length } with
-            | (.ok _, c') => .ok c'
-            | (.error _, _) => .error .statechart) := rfl
+        have e0 : ((Except.ok a : Except IOErr Chart).bind fun c => addTransStep c t) = addTransStep a t := rfl
         rw [e0] at hab
+        unfold addTransStep at hab
         split at hab
         · next u c' heq =>
           have hok : (a.addTransition { t with id := a.transitions.length }).1 = .ok () := by rw [heq]
